@@ -76,6 +76,8 @@ type inlineFrame struct {
 	skip     bool
 	prefix   string
 	names    map[string][]ssa.Value
+	nameAt   map[string]map[ssa.Value]ssa.Instruction
+	curInstr ssa.Instruction
 }
 
 func (e *Enc) tryInline(fn *ssa.Function, c *ssa.CallCommon, args []Val) ([]Val, bool) {
@@ -88,7 +90,7 @@ func (e *Enc) tryInline(fn *ssa.Function, c *ssa.CallCommon, args []Val) ([]Val,
 	// save caller frame
 	saved := inlineFrame{fn: e.fn, name: e.name, fc: e.fc, vals: e.vals, reach: e.reach, exit: e.exit, edgeCond: e.edgeCond,
 		rets: e.rets, defers: e.defers, curBlock: e.curBlock, curReach: e.curReach, loops: e.loops, loopList: e.loopList,
-		inLoops: e.inLoops, rpo: e.rpo, reachBlocks: e.reachBlocks, skip: e.skipObligations, prefix: e.prefix, names: e.names}
+		inLoops: e.inLoops, rpo: e.rpo, reachBlocks: e.reachBlocks, skip: e.skipObligations, prefix: e.prefix, names: e.names, nameAt: e.nameAt, curInstr: e.curInstr}
 	nAllocs := len(e.allocs)
 	e.inlineSeq++
 	e.inlineDepth++
@@ -104,6 +106,7 @@ func (e *Enc) tryInline(fn *ssa.Function, c *ssa.CallCommon, args []Val) ([]Val,
 	e.defers = nil
 	e.skipObligations = true
 	e.names = map[string][]ssa.Value{}
+	e.nameAt = map[string]map[ssa.Value]ssa.Instruction{}
 	e.emit("; inline " + e.p.FuncName(fn))
 	e.analyzeCFG()
 	for i, pr := range fn.Params {
@@ -166,6 +169,7 @@ func (e *Enc) restoreFrame(s inlineFrame) {
 	e.fn, e.name, e.fc, e.vals, e.reach, e.exit, e.edgeCond = s.fn, s.name, s.fc, s.vals, s.reach, s.exit, s.edgeCond
 	e.rets, e.defers, e.curBlock, e.curReach, e.loops, e.loopList = s.rets, s.defers, s.curBlock, s.curReach, s.loops, s.loopList
 	e.inLoops, e.rpo, e.reachBlocks, e.skipObligations, e.prefix, e.names = s.inLoops, s.rpo, s.reachBlocks, s.skip, s.prefix, s.names
+	e.nameAt, e.curInstr = s.nameAt, s.curInstr
 	e.inlineDepth--
 }
 
